@@ -85,4 +85,59 @@ pub fn run(r: &mut Report) {
         r.case("delegation", json!({"fault": format!("{:?}", f)}), if expect { "Ok" } else { "Err" },
                match &res { Ok(v) => verdict(v), Err(p) => format!("panic: {}", p) }, matches!(&res, Ok(v) if v.is_ok() == expect));
     }
+
+    // the dedicated sub-directory is named "<step name>.<key id prefix>" whatever the step name looks like
+    for sname in ["package.rpm", "a.b.c", "with space", "\u{e9}tape", ".hidden", "trailing.", "a"] {
+        for place in ["own-directory", "name-with-last-extension-replaced", "name-without-prefix", "prefix-only"] {
+            let d = tmpdir();
+            let sub = layout(vec![step("inner", 1, &[&kb], allow_all(), allow_all())], vec![], &[&kb], 30);
+            write_link(d.path(), sname, ka.key_id(), &signed_layout(&sub, &[&ka]));
+            let pre = ka.key_id().prefix();
+            let dirname = match place { "own-directory" => format!("{}.{}", sname, pre),
+                "name-with-last-extension-replaced" => match sname.rfind('.') { Some(i) if i > 0 => format!("{}.{}", &sname[..i], pre), _ => format!("{}x.{}", sname, pre) },
+                "name-without-prefix" => sname.to_string(), _ => pre.clone() };
+            let expect = dirname == format!("{}.{}", sname, pre);
+            let subdir = d.path().join(&dirname);
+            if subdir.exists() { continue; }      // the name collides with the evidence file itself
+            std::fs::create_dir_all(&subdir).unwrap();
+            write_link(&subdir, "inner", kb.key_id(), &signed_link(&link("inner", &[], &[("z", 7)]), &[&kb]));
+            let parent = layout(vec![step(sname, 1, &[&ka], allow_all(), allow_all())], vec![], &[&ka], 30);
+            let lay = signed_layout(&parent, &[&owner]);
+            let res = no_panic(|| in_toto_verify(&lay, owner_keys(&[&owner]), d.path().to_str().unwrap(), None));
+            r.case("delegation-directory-name", json!({"step": sname, "inner_links_in": dirname}), if expect { "Ok" } else { "Err" },
+                   match &res { Ok(v) => verdict(v), Err(p) => format!("panic: {}", p) }, matches!(&res, Ok(v) if v.is_ok() == expect));
+        }
+    }
+    // several functionaries of one step file the SAME delegated layout (threshold 2): each one's own sub-directory must pass on its own
+    #[derive(Clone, Copy, Debug)]
+    enum Second { Complete, InnerMissing, InnerUnauthorised, InnerInParentDir, InnerOnlyInFirstDir, InnerFailsRule }
+    for which in [0usize, 1] {
+        for f in [Second::Complete, Second::InnerMissing, Second::InnerUnauthorised, Second::InnerInParentDir, Second::InnerOnlyInFirstDir, Second::InnerFailsRule] {
+            let d = tmpdir();
+            let inner_rule = vec![in_toto::models::rule::ArtifactRule::Create("z".into()), in_toto::models::rule::ArtifactRule::Disallow("*".into())];
+            let sub = layout(vec![step("inner", 1, &[&kb], allow_all(), inner_rule)], vec![], &[&kb], 30);
+            let filers = [&ka, &kc];
+            for (i, k) in filers.iter().enumerate() {
+                let sub_mb = signed_layout(&sub, &[k]);
+                write_link(d.path(), "a", k.key_id(), &sub_mb);
+                let subdir = d.path().join(format!("a.{}", k.key_id().prefix()));
+                std::fs::create_dir_all(&subdir).unwrap();
+                let faulty = i == which;
+                let good = signed_link(&link("inner", &[], &[("z", 7)]), &[&kb]);
+                match (faulty, f) {
+                    (false, _) | (true, Second::Complete) => write_link(&subdir, "inner", kb.key_id(), &good),
+                    (true, Second::InnerMissing) | (true, Second::InnerOnlyInFirstDir) => {}
+                    (true, Second::InnerUnauthorised) => write_link(&subdir, "inner", kc.key_id(), &signed_link(&link("inner", &[], &[("z", 7)]), &[&kc])),
+                    (true, Second::InnerInParentDir) => write_link(d.path(), "inner", kb.key_id(), &good),
+                    (true, Second::InnerFailsRule) => write_link(&subdir, "inner", kb.key_id(), &signed_link(&link("inner", &[], &[("z", 7), ("stray", 8)]), &[&kb])),
+                }
+            }
+            let parent = layout(vec![step("a", 2, &[&ka, &kc], allow_all(), allow_all())], vec![], &[&ka, &kc], 30);
+            let lay = signed_layout(&parent, &[&owner]);
+            let res = no_panic(|| in_toto_verify(&lay, owner_keys(&[&owner]), d.path().to_str().unwrap(), None));
+            let expect = matches!(f, Second::Complete);
+            r.case("delegation-same-sublayout-threshold-2", json!({"faulty_functionary": which, "fault": format!("{:?}", f)}), if expect { "Ok" } else { "Err" },
+                   match &res { Ok(v) => verdict(v), Err(p) => format!("panic: {}", p) }, matches!(&res, Ok(v) if v.is_ok() == expect));
+        }
+    }
 }
